@@ -132,12 +132,27 @@ pub fn build_command(root: &Path, cfg: &Config) -> MosResult<()> {
     bw.write_banks(banks, &target_dir, &filename)?;
 
     if cfg.build.listing {
+        let input_dir = cfg
+            .build
+            .input_path(root)
+            .parent()
+            .map(|p| p.to_path_buf())
+            .unwrap_or_default();
         for (source_path, contents) in
             to_listing(&generated_code, cfg.formatting.listing.num_bytes_per_line)?
         {
-            let listing_path =
-                format!("{}.lst", source_path.file_stem().unwrap().to_string_lossy());
-            let mut out = fs::File::create(target_dir.join(listing_path)).map_err(map_io_error)?;
+            // The listing of a file in a subdirectory goes into the same subdirectory of the target directory:
+            // 'x/util.asm' and 'y/util.asm' (or 'lib/main.asm' and the entry file) would otherwise share one listing
+            // file, and which of the two ends up in it would differ from build to build.
+            let relative = match source_path.strip_prefix(&input_dir) {
+                Ok(relative) => relative.to_path_buf(),
+                Err(_) => PathBuf::from(source_path.file_name().unwrap()),
+            };
+            let listing_path = target_dir.join(relative).with_extension("lst");
+            if let Some(parent) = listing_path.parent() {
+                fs::create_dir_all(parent)?;
+            }
+            let mut out = fs::File::create(listing_path).map_err(map_io_error)?;
             out.write_all(contents.as_bytes()).map_err(map_io_error)?;
         }
     }
